@@ -174,13 +174,16 @@ func Run(c *core.Ctx) {
 	if c.ReplayFile != "" {
 		var both struct {
 			c17Case
-			Ops []c17SrvOp
+			URI     string
+			Preload bool
+			Disk    string
+			Ops     []c17SrvOp
 		}
 		c.LoadReplay(&both)
 		c.Eval(1)
 		c.NontrivialN(2)
 		if len(both.Ops) > 0 {
-			sc := c17SrvCase{Ops: both.Ops}
+			sc := c17SrvCase{URI: both.URI, Preload: both.Preload, Disk: both.Disk, Ops: both.Ops}
 			if m, _ := c17RunServer(sc, nil); m != "" {
 				c.Violate(c17SrvKey(sc), m, sc)
 			}
